@@ -521,6 +521,24 @@ func checkC03(c *Check, p *Program) {
 	for _, op := range ix.opsOnField(a.ack, "recv", "sel-recv", "range") {
 		c.Decide(senders[op.Fn], "C03.S9", FuncName(op.Fn)+" receives on Tunnel.ack", p.InstrPos(op.Instr), "only the sender consumes acknowledgements", "acknowledgements are consumed outside the sending function (a sender can miss its acknowledgement)")
 	}
+	// the relay is reached: the function that relays is called, once, from the loop that receives from the socket,
+	// behind the type test for *TunnelRes (an emptied case arm drops every acknowledgement: every Send times out)
+	handlers := map[*ssa.Function]bool{}
+	for _, op := range sends {
+		handlers[topOf(op.Fn)] = true
+	}
+	nCall := 0
+	for _, fn := range p.FuncsIn("knx") {
+		instrsOf(fn, func(in ssa.Instruction) {
+			call, ok := in.(*ssa.Call)
+			if !ok || call.Common().StaticCallee() == nil || !handlers[call.Common().StaticCallee()] {
+				return
+			}
+			nCall++
+			c.Decide(factAssertPtr(factsAt(call.Block()), knxnetPath, "TunnelRes"), "C03.S9", FuncName(fn)+" hands received acknowledgements to the relay", p.InstrPos(call), "called behind msg.(*knxnet.TunnelRes)", "the relay is not called behind the type test for *knxnet.TunnelRes")
+		})
+	}
+	c.Exact("C03.S9", "call sites of the acknowledgement relay", nCall, len(handlers), "")
 }
 
 // one checks that a request field is stored exactly once.
